@@ -414,7 +414,11 @@ def find_connected_nodes(
 
     for node in graph[start]:
         if node not in visited:
-            find_connected_nodes(graph, node, visited)
+            if node in graph:
+                find_connected_nodes(graph, node, visited)
+            else:
+                # a node without outgoing edges is reachable all the same
+                visited.add(node)
 
     return visited
 
